@@ -41,15 +41,28 @@ class ListGen:
         r = self.r
         t = r.choice(["int", "int", "float", "str"])
         name = self.fresh("L")
-        if t == "int" and r.random() < 0.35:
-            n = r.randint(0, 5)
+        if t == "int" and r.random() < 0.4:
             k = r.choice([1, 2, 3])
             form = r.choice(["q * {k}", "q + {k}", "q", "q * q"]).format(k=k)
-            self.L.append(f"{ind}{name} = [{form} for q in range({n})]")
-            vals = [eval(form, {"q": q}) for q in range(n)]
+            shape = r.choice([1, 2, 3, 3])
+            if shape == 1:
+                rng = (r.randint(0, 5),)
+            elif shape == 2:
+                lo = r.randint(-3, 4)
+                rng = (lo, lo + r.randint(0, 5))
+            else:
+                lo = r.randint(-4, 12)
+                step = r.choice([1, 2, 3, -1, -2, -3, -4])
+                rng = (lo, lo + step * r.randint(0, 4) + r.choice([0, 1, -1, 2, -2]), step)
+                self.features.add("listcomp-range3")
+            self.L.append(f"{ind}{name} = [{form} for q in range({', '.join(map(str, rng))})]")
+            vals = [eval(form, {"q": q}) for q in range(*rng)]
             self.features.add("listcomp")
         else:
             vals = [self.lit(t) for _ in range(r.randint(1, 5))]
+            if len(vals) >= 2 and r.random() < 0.4:
+                vals[r.randrange(1, len(vals))] = vals[0]
+                self.features.add("duplicates")
             self.L.append(f"{ind}{name} = [{', '.join(self.src(v) for v in vals)}]")
             self.features.add("list-literal-" + t)
         self.lists[name] = {"t": t, "vals": list(vals)}
@@ -90,12 +103,24 @@ class ListGen:
             if op == "remove" and info["vals"]:
                 v = r.choice(info["vals"])
                 out.append(f"{name}.remove({self.src(v)})" if info["t"] == "int" else None)
+                if info["t"] == "int" and r.random() < 0.5:
+                    # remove through a run-time value, then use the folded length as an index bound
+                    tmp = self.fresh("rv")
+                    out[-1] = f"{tmp} = {name}[{info['vals'].index(v)}]"
+                    out.append(f"{name}.remove({tmp})")
+                    self.features.add("remove-runtime-value")
                 if info["t"] != "int":
                     # remove through an element read (literal float/str arguments do not compile - known finding)
                     idx = info["vals"].index(v)
                     out[-1] = f"{name}.remove({name}[{idx}])"
                 info["vals"].remove(v)
                 self.features.add("remove")
+                if info["vals"]:
+                    out.append(f"mon.write({name}[len({name}) - 1])")
+                    it = self.fresh("k")
+                    out.append(f"for {it} in range(len({name})):")
+                    out.append(f"    mon.write({name}[{it}])")
+                    self.features.add("index-by-len")
             elif info["t"] == "int":
                 v = self.lit("int")
                 out.append(f"{name}.append({v})")
@@ -112,7 +137,7 @@ class ListGen:
 
     def generate(self):
         r = self.r
-        for _ in range(r.randint(1, 3)):
+        for _ in range(r.randint(1, 4)):
             self.new_list()
         names = list(self.lists)
         for nm in names:
@@ -120,6 +145,19 @@ class ListGen:
             if r.random() < 0.7:
                 self.L += self.mutate_setup(nm)
                 self.L += self.read_ops("", nm)
+        same = {}
+        for nm in names:
+            same.setdefault(self.lists[nm]["t"], []).append(nm)
+        pairs = [v for v in same.values() if len(v) >= 2]
+        self.swap_pair = None
+        if pairs and r.random() < 0.7:
+            a1, b1 = r.sample(r.choice(pairs), 2)
+            self.L.append(f"{a1}, {b1} = {b1}, {a1}")
+            self.lists[a1], self.lists[b1] = self.lists[b1], self.lists[a1]
+            self.L += self.read_ops("", a1)
+            self.L += self.read_ops("", b1)
+            self.features.add("list-swap")
+            self.swap_pair = (a1, b1)
         if "list-alias" in self.hz:
             src = r.choice(names)
             al = self.fresh("alias")
@@ -157,6 +195,11 @@ class ListGen:
             if "list-grow" in self.hz and info["t"] == "int":
                 self.L.append(f"{ind}{nm}.append(count)")
                 self.features.add("hz:list-grow")
+        if getattr(self, "swap_pair", None) and r.random() < 0.6:
+            a1, b1 = self.swap_pair
+            self.L.append(f"{ind}{a1}, {b1} = {b1}, {a1}")
+            self.L.append(f"{ind}mon.write(len({a1}))")
+            self.features.add("list-swap-in-loop")
         if "list-local" in self.hz:
             t = r.choice(["int", "str"])
             vals = [self.lit(t) for _ in range(r.randint(1, 3))]
